@@ -187,6 +187,9 @@ def Ellipse.path_elements (e : Ellipse K) (tolerance : K) : List (PathEl K) :=
   let (radii, x_rotation) := e.inner.svd
   ({ center := e.center, radii := radii, start_angle := (0 : K), sweep_angle := twoPi, x_rotation := x_rotation } : Arc K).path_elements tolerance
 
+/-- `Ellipse::radii` -/
+def Ellipse.radii (e : Ellipse K) : Vec2 K := e.inner.svd.1
+
 def Ellipse.area (e : Ellipse K) : K :=
   let r := e.inner.svd.1
   (Scalar.pi : K) * r.x * r.y
@@ -210,6 +213,9 @@ def Ellipse.bounding_box (e : Ellipse K) : Rect K :=
 /-- `impl Mul<Ellipse> for Affine` -/
 def Affine.mul_Ellipse (a : Affine K) (e : Ellipse K) : Ellipse K := ⟨a * e.inner⟩
 
+/-- `Ellipse::radii_and_rotation` -/
+def Ellipse.radii_and_rotation (e : Ellipse K) : Vec2 K × K := e.inner.svd
+
 /-- `impl Mul<Arc> for Affine` -/
 def Affine.mul_Arc (a : Affine K) (arc : Arc K) : Arc K :=
   let ellipse := a.mul_Ellipse (Ellipse.new arc.center arc.radii arc.x_rotation)
@@ -226,6 +232,7 @@ def Affine.mul_Arc (a : Affine K) (arc : Arc K) : Arc K :=
 
 /-! ### rounded rectangle -/
 
+def RoundedRectRadii.new (top_left top_right bottom_right bottom_left : K) : RoundedRectRadii K := ⟨top_left, top_right, bottom_right, bottom_left⟩
 def RoundedRectRadii.abs (r : RoundedRectRadii K) : RoundedRectRadii K :=
   ⟨sabs r.top_left, sabs r.top_right, sabs r.bottom_right, sabs r.bottom_left⟩
 def RoundedRectRadii.clamp (r : RoundedRectRadii K) (max : K) : RoundedRectRadii K :=
